@@ -1568,20 +1568,22 @@ PROPS['C04'] = dict(
 )
 
 PROPS['C05'] = dict(
-    module='FlacModel.Props.C05',
-    theorems=['Flac.C05.unstep_step', 'Flac.C05.step16_inj', 'Flac.C05.step8_inj', 'Flac.C05.crc16_single_bit', 'Flac.C05.crc8_single_bit',
+    module='FlacModel.Props.C05b',
+    theorems=['Flac.C05.accepted_frame_is_wellformed', 'Flac.C05.single_bit_flip_rejected', 'Flac.C05.accepted_crc16', 'Flac.C05.unstep_step', 'Flac.C05.step16_inj', 'Flac.C05.step8_inj', 'Flac.C05.crc16_single_bit', 'Flac.C05.crc8_single_bit',
               'Flac.C05.flip_same_extent_rejected'],
     components=[InvalidStreams('reject'), Damage('detect')],
     rule='every single-bit flip in the audio frames and every truncation point of 8 (quick) / 40 (thorough) small valid files (exhaustive per file, about 1200 flips and 150 cuts each): '
          'the decode must end in an error unless the independent L0 decoder accepts the altered bytes with the same PCM, and the samples delivered before the error must be a whole-frame prefix '
          'of the original; plus the must-reject classes of the invalid-frame generator (block-size 0000, rate 1111, depth 011, wasted >= depth, precision 1111, negative shift, coding method >= 2, '
          'order > block, residual beyond 32 bits, one-sample block with partition order 1, frames overshooting the declared total); MD5 verdicts are checked under C03',
-    claim='crc16_single_bit / crc8_single_bit: flipping any one bit of a message of ANY length changes its CRC (the LFSR step is invertible because both generator polynomials are odd: '
-          'unstep_step, proved algebraically for every register width, then step*_inj and induction over the remaining bits); flip_same_extent_rejected: a single-bit flip that leaves the '
-          'frame extent unchanged can never keep the residue at 0.',
-    note='The CRC theorems are about the bit-serial CRCs of the specification; the crate\'s table-driven CRCs are tied to them by C02 (tables = polynomials, update shape, all one-byte messages) '
-         'and by the correspondence on every frame. Soundness of everything the decoder accepts (impl_accept_sound) and prefix-determinism of truncations are decided by the exhaustive '
-         'flip/truncation runs against the independent L0 decoder, not by a theorem.',
+    claim='accepted_frame_is_wellformed: for EVERY byte string, whatever the streaming decoder accepts is byte for byte the serialization of a frame that is well-formed against the STREAMINFO '
+          'context - legal header codes consistent with their fields and with STREAMINFO, legal subframe types/orders/precisions/shifts/partition layouts, every value inside its field, and BOTH stored '
+          'checksums equal to the checksums of the content (crc8_pins/crc16_pins); so reserved or illegal codes, STREAMINFO contradictions and wrong checksums are all rejected. '
+          'single_bit_flip_rejected: for the checksum code of crc.rs (tied to the bit-serial CRC on every message by crc16_eq_spec) and frames of any length, a frame that differs in exactly one bit from an '
+          'accepted frame is never accepted with the same extent, in either profile. Bit-serial level: both LFSR steps are bijections of the register and separate the two values of the input bit '
+          '(algebraic, any width), hence crc16_single_bit / crc8_single_bit / flip_same_extent_rejected.',
+    note='A flip that changes the frame extent (e.g. in the block-size code) moves the checksum position; the exhaustive flip/truncation runs against the independent L0 decoder cover those, and '
+         'the whole-frame-prefix clause for files. The reserved bit after the sample-size code is skipped by the crate (the model serializer stores it), so it is not among the rejected codes.',
     trusted_base=COMMON_TRUST + ['Spec/Rfc.lean'],
     assumptions=[],
 )
